@@ -3,3 +3,4 @@ pub mod snf;
 pub mod linalg;
 pub mod iso;
 pub mod orb2;
+pub mod groups;
